@@ -184,7 +184,7 @@ PROPS["C05"] = dict(
 )
 
 PROPS["C06"] = dict(
-    name="c06", thorough_rounds=2, sources=["props/c06.cpp"], engine="rapidcheck + enumerator", libs=["-lrapidcheck"], cflags=["-O2"],
+    name="c06", thorough_rounds=1, sources=["props/c06.cpp"], engine="rapidcheck + enumerator", libs=["-lrapidcheck"], cflags=["-O2"],
     builds=[("asan", "native")],
     builds_thorough=[("asan", "native"), ("asan", "noti"), ("asan", "portable")],
     level="exploration",
